@@ -64,6 +64,11 @@ type lkSc struct {
 	IPLimit  int      `json:"ip_limit,omitempty"`  // >0: diversity filter with this table limit
 	SeedConn bool     `json:"seed_conn,omitempty"` // seeds are already connected (no dial)
 	CancelMs int      `json:"cancel_ms,omitempty"` // >0: the caller cancels the lookup's context this long after starting it
+	// EvStallMs > 0: the consumer of the lookup events stops reading EvStallAtMs after the lookup started, for EvStallMs; the event
+	// channel is unbuffered in that case (LookupEventBufferSize 0), so an event's read time is its publish time and the lookup
+	// loop, which publishes synchronously, stands still during the stall while answers and failures queue up behind it
+	EvStallAtMs int `json:"ev_stall_at_ms,omitempty"`
+	EvStallMs   int `json:"ev_stall_ms,omitempty"`
 }
 
 const unknownBase = 8000 // pool indices of peers that liars may name but that do not exist
@@ -365,16 +370,22 @@ func (e *simEnv) close() {
 }
 
 // collectEvents drains a lookup-event channel with virtual timestamps until it is closed.
-func collectEvents(sim *verifnet.Sim, ch <-chan *LookupEvent) (get func() []timedEvent, done <-chan struct{}) {
+func collectEvents(sim *verifnet.Sim, ch <-chan *LookupEvent, stall ...time.Duration) (get func() []timedEvent, done <-chan struct{}) {
 	var mu sync.Mutex
 	var evs []timedEvent
 	d := make(chan struct{})
 	go func() {
 		defer close(d)
+		stalled := false
 		for ev := range ch {
 			mu.Lock()
 			evs = append(evs, timedEvent{sim.Now(), ev})
 			mu.Unlock()
+			// stall = [from (on the simulation's clock), for how long]: one pause, taken after the first event read at or after `from`
+			if len(stall) == 2 && !stalled && stall[1] > 0 && sim.Now() >= stall[0] {
+				stalled = true
+				time.Sleep(stall[1])
+			}
 		}
 	}()
 	return func() []timedEvent { mu.Lock(); defer mu.Unlock(); return append([]timedEvent(nil), evs...) }, d
